@@ -214,3 +214,41 @@ func VerifTextBatchAllOrNothing() {
 	}
 	vassert("no-storage-access-after-the-transaction-ended", st.useAfterEnd == 0)
 }
+
+// ---- C07 under a slow goroutine: the same faulted insert with concrete ids, explored under the
+// freeze regime (any one goroutine of the pipeline stalls at any of its scheduling points until
+// nobody else can run): when the write method returns, no goroutine of the batch is left that
+// still touches the rolled-back transaction.
+func VerifFaultedBatchWithSlowGoroutine() {
+	s, st := verifShard(atomicSchema())
+	a, b := uuid.UUID{1}, uuid.UUID{2}
+	ids := []uuid.UUID{a, b}
+	vassume(s.InsertPoints([]models.Point{{Id: a, Data: vdoc(vecDoc(0, 1, 1))}}) == nil)
+	before := observe(s, ids)
+	st.failAt = nondetIntRange(0, vparam("FAULTS", 12))
+	st.ops, st.counting = 0, true
+	st.useAfterEnd = 0
+	st.strict = true
+	st.yieldOnOps = true // storage operations are scheduling points (natively: pause points)
+	vsched(1)
+	var err error
+	switch vparam("KIND", 0) {
+	case 0:
+		err = s.InsertPoints([]models.Point{{Id: b, Data: vdoc(vecDoc(1, 2, 2))}})
+	case 2:
+		_, err = s.UpdatePoints([]models.Point{{Id: a, Data: vdoc(vecDoc(2, 5, 5))}})
+	case 3:
+		_, err = s.DeletePoints(map[uuid.UUID]struct{}{a: {}})
+	}
+	st.counting = false
+	vcover("reached")
+	if st.ops > st.failAt {
+		vcover("faulted")
+		vassert("faulted-batch-reports-an-error", err != nil)
+	}
+	after := observe(s, ids)
+	if err != nil {
+		vassert("failed-batch-leaves-every-answer-unchanged", sameSnapshot(before, after, ids))
+	}
+	vassert("no-storage-access-after-the-transaction-ended", st.useAfterEnd == 0)
+}
